@@ -807,6 +807,9 @@ fn gen_inspecs(built: &Built, rng: &mut Rng, heavy_tags: bool) -> Vec<InSpec> {
                 3 => rng.range(0, 3 * in_cap),
                 _ => rng.range(0, 700),
             };
+            // a delay longer than the output stream in front of an input that ends at once: the zeros alone
+            // take several calls, and the block must not be retired before they are out
+            let len = if built.name == "delay" && built.params[0] >= 1025 && len % 2 == 0 { 0 } else { len };
             // a case on large streams: more input than one stream holds (no extra random draw)
             let len = if BIG_CASE.load(std::sync::atomic::Ordering::SeqCst) && len < in_cap { in_cap + len % 4000 } else { len };
             let mut pkts = vec![];
@@ -1575,6 +1578,7 @@ pub fn case(name: &str, rng: &mut Rng, steps: usize, heavy_tags: bool) -> String
                 3 => rng.range(0, 3 * in_cap),
                 _ => rng.range(0, 700),
             };
+            let len = if built.name == "delay" && built.params[0] >= 1025 && len % 2 == 0 { 0 } else { len };
             let tags = if built.name == "s2pdu" {
                 gen_burst_tags_for(rng, len, Some((built.params[1] as usize, built.params[2] as usize)))
             } else {
